@@ -134,6 +134,35 @@ pub fn cmd_registry(args: &[String]) -> i32 {
         format!("{:?}", ch) == format!("TlsClientHelloContents {{ version: {:?}, random: {:?}, session_id: None, ciphers: {:?}, comp: {:?}, ext: None }}",
                                        TlsVersion(v as u16), tls_parser_hex(&R), vec![TlsCipherSuiteID(v as u16)], vec![TlsCompressionID(v as u8)])
     });
+    // formatter options: a precision never shortens a name or a fallback, a width at most pads a Display text (derived Debug impls hand the
+    // width on to the inner integer, so Debug is only tried with precisions), hexadecimal output under any
+    // width / flag still shows the value (the integer's own rendering of that spec, or the plain digits), and nothing panics
+    macro_rules! opts { ($tn:expr, $T:ident, $w:ty) => {{
+        conv(&mut out, $tn, "format_options", <$w>::MAX as u32, |v| {
+            let x = $T(v as $w);
+            let (d, g) = (format!("{}", x), format!("{:?}", x));
+            format!("{:.3}", x) == d && format!("{:.0}", x) == d && format!("{:40}", x).trim() == d && format!("{:>40}", x).trim() == d
+                && format!("{:.1?}", x) == g && format!("{:.0?}", x) == g
+                && format!("{:.1?}", (0.25f32, x)) == format!("(0.2, {})", g)
+        });
+    }}; }
+    opts!("TlsRecordType", TlsRecordType, u8); opts!("TlsHandshakeType", TlsHandshakeType, u8); opts!("TlsVersion", TlsVersion, u16);
+    opts!("TlsHeartbeatMessageType", TlsHeartbeatMessageType, u8); opts!("TlsCompressionID", TlsCompressionID, u8);
+    opts!("TlsAlertSeverity", TlsAlertSeverity, u8); opts!("TlsAlertDescription", TlsAlertDescription, u8);
+    opts!("TlsExtensionType", TlsExtensionType, u16); opts!("NamedGroup", NamedGroup, u16); opts!("SignatureScheme", SignatureScheme, u16);
+    opts!("HashAlgorithm", HashAlgorithm, u8); opts!("SignAlgorithm", SignAlgorithm, u8); opts!("SNIType", SNIType, u8);
+    opts!("CertificateStatusType", CertificateStatusType, u8); opts!("CtVersion", CtVersion, u8); opts!("TlsCipherSuiteID", TlsCipherSuiteID, u16);
+    macro_rules! hexopts { ($tn:expr, $T:ident) => {{
+        conv(&mut out, $tn, "lowerhex_options", 65535, |v| {
+            let x = $T(v as u16);
+            let plain = format!("{:x}", v);
+            let ok = |s: String, int: String| s == plain || s == int;
+            ok(format!("{:2x}", x), format!("{:2x}", v)) && ok(format!("{:02x}", x), format!("{:02x}", v)) && ok(format!("{:08x}", x), format!("{:08x}", v))
+                && ok(format!("{:#06x}", x), format!("{:#06x}", v)) && ok(format!("{:#3x}", x), format!("{:#3x}", v)) && ok(format!("{:<9x}", x), format!("{:<9x}", v))
+                && ok(format!("{:1x}", x), format!("{:1x}", v))
+        });
+    }}; }
+    hexopts!("TlsVersion", TlsVersion); hexopts!("TlsCipherSuiteID", TlsCipherSuiteID);
     // the registry code of a PARSED extension (From<&TlsExtension>) is its wire type, for every type and every dispatcher
     // (every GREASE point maps to the single Grease code)
     for (which, f) in [("generic", parse_tls_extension as fn(&[u8]) -> IResult<&[u8], TlsExtension>), ("client", parse_tls_client_hello_extension), ("server", parse_tls_server_hello_extension)] {
